@@ -318,20 +318,20 @@ func buildChain(names []string, finder *assets.LocationFinder) ([]routing.RulesO
 }
 
 type trafficLeg struct {
-	r       *vlib.Run
-	f       *findings
-	finder  *assets.LocationFinder
-	chain   []string
-	id2name []string
+	r        *vlib.Run
+	f        *findings
+	finder   *assets.LocationFinder
+	chain    []string
+	id2name  []string
 	deadline func() bool
 
-	lists, evals, changed, nontrivial            *atomic.Int64
-	merged, deduped, geo, reordered, byRule      *atomic.Int64
-	negMergeable                                 *atomic.Int64
-	outcomes                                     hist
-	dupSkipped                                   *atomic.Int64
-	seenMu                                       sync.Mutex
-	seen                                         map[uint64]struct{}
+	lists, evals, changed, nontrivial       *atomic.Int64
+	merged, deduped, geo, reordered, byRule *atomic.Int64
+	negMergeable                            *atomic.Int64
+	outcomes                                hist
+	dupSkipped                              *atomic.Int64
+	seenMu                                  sync.Mutex
+	seen                                    map[uint64]struct{}
 }
 
 func newTrafficLeg(r *vlib.Run, f *findings, finder *assets.LocationFinder, chain []string) *trafficLeg {
